@@ -299,21 +299,28 @@ class CSSStyleSheet(css_parser.stylesheets.StyleSheet):
         newseq = []
 
         # ['CHARSET', 'IMPORT', ('VAR', NAMESPACE'), ('PAGE', 'MEDIA', ruleset)]
-        wellformed, expected = self._parse(0, newseq, tokenizer,
-                                           {'S': S,
-                                            'COMMENT': COMMENT,
-                                            'CDO': lambda *ignored: None,
-                                            'CDC': lambda *ignored: None,
-                                            'CHARSET_SYM': charsetrule,
-                                            'FONT_FACE_SYM': fontfacerule,
-                                            'IMPORT_SYM': importrule,
-                                            'NAMESPACE_SYM': namespacerule,
-                                            'PAGE_SYM': pagerule,
-                                            'MEDIA_SYM': mediarule,
-                                            'VARIABLES_SYM': variablesrule,
-                                            'ATKEYWORD': unknownrule
-                                            },
-                                           default=ruleset)
+        try:
+            wellformed, expected = self._parse(0, newseq, tokenizer,
+                                               {'S': S,
+                                                'COMMENT': COMMENT,
+                                                'CDO': lambda *ignored: None,
+                                                'CDC': lambda *ignored: None,
+                                                'CHARSET_SYM': charsetrule,
+                                                'FONT_FACE_SYM': fontfacerule,
+                                                'IMPORT_SYM': importrule,
+                                                'NAMESPACE_SYM': namespacerule,
+                                                'PAGE_SYM': pagerule,
+                                                'MEDIA_SYM': mediarule,
+                                                'VARIABLES_SYM': variablesrule,
+                                                'ATKEYWORD': unknownrule
+                                                },
+                                               default=ruleset)
+        except Exception:
+            # the new text was rejected by raising: keep the sheet as it was
+            self._cssRules = oldCssRules
+            self._namespaces = oldNamespaces
+            self._updateVariables()
+            raise
 
         if wellformed:
             # use proper namespace object
